@@ -13,6 +13,10 @@ import numpy as np  # noqa: E402
 
 def digest(r):
     h = hashlib.sha1()
+    if isinstance(r, dict):        # solve_axes: axis name -> value(s)
+        r = tuple(x for k in sorted(r) for x in (np.asarray([ord(ch) for ch in k]), np.asarray(r[k])))
+    elif isinstance(r, bool):
+        r = (np.asarray(r),)
     rs = r if isinstance(r, tuple) else (r,)
     vals = []
     for x in rs:
@@ -75,7 +79,7 @@ def main():
         digests[k], values[k] = seen[0], v
         if len(set(seen)) > 1:
             repeat_unstable.append(k)
-        if k % 3 == 0:
+        if k % 3 == 0 and not op.startswith("solve") and op != "matches":
             try:
                 t1 = getattr(einx, op)(desc, *mkargs(arrays), graph=True, **kw)
                 t2 = getattr(einx, op)(desc, *mkargs(arrays), graph=True, **kw)
